@@ -87,7 +87,7 @@ def run(ctx):
                 'values; cell-wise comparison by wavelength value. a case = one write+read; non-trivial = n_wav>=2 (SED/cube) or n_models>=2 (convolved)')
     ctx.assume('SED files materialise a single dummy aperture when none is set (by design): values are compared, not the dummy',
                'values compared with rtol 1e-12 (erg/s goes through /d^2 * d^2)', 'float64 arrays (what the objects hold) are stored as float64')
-    ctx.require_events('SED.read:post', 'SEDCube.read:post', 'roundtrip:sed', 'roundtrip:cube', 'roundtrip:convolved', 'cube:get_sed', 'roundtrip:sed-object-reused', 'roundtrip:cube-object-reused', 'roundtrip:sed-other-unit')
+    ctx.require_events('SED.read:post', 'SEDCube.read:post', 'roundtrip:sed', 'roundtrip:cube', 'roundtrip:convolved', 'cube:get_sed', 'roundtrip:sed-object-reused', 'roundtrip:cube-object-reused', 'roundtrip:sed-other-unit', 'cube:get_sed-after-values-reassigned')
     ctx.require_regimes('sed:asc', 'sed:desc', 'cube:asc', 'cube:desc', 'cube:no-unc', 'cube:no-apertures', 'cube:memmap',
                         'convolved:no-apertures', 'unit:erg/s', 'unit:Jy', 'cube:valid-flags', 'cube:unc-in-another-unit', 'sed:error-in-another-unit', 'cube:axis-unit:nm', 'cube:axis-unit:GHz', 'cube:axis-unit:mm')
     cfg = list(itertools.product(['asc', 'desc'], ['nu', 'wav'], list(FLUX_UNITS), [True, False], [True, False], [True, False]))
@@ -375,6 +375,38 @@ def run(ctx):
                     del r
                     os.remove(path2)
                 ctx.case(('cubere', ic, ctx.shard), nontrivial=True)
+
+            # ---------------- in-memory cube: one model extracted, the values re-assigned, extracted again ----------------
+            if ic % 3 == 1:
+                c3 = SEDCube()
+                c3.names = np.array(['x%d' % (i * 3 + 1) for i in range(n_m)][::-1])
+                c3.distance = 2.0 * u.kpc
+                c3.wav = wav_in * u.micron
+                if with_ap:
+                    c3.apertures = (aps * u.au).to(apu)
+                ok3 = True
+                for use in range(2):
+                    vv = encode(n_m, n_a, wav_asc, rng)
+                    c3.val = vv[:, :, sl] * funit
+                    if with_unc:
+                        c3.unc = vv[:, :, sl] * 0.07 * funit
+                    mi = int(rng.integers(n_m))
+                    try:
+                        s3 = c3.get_sed(str(c3.names[mi]))
+                    except Exception as exc:
+                        ctx.violation('cube:get_sed-raised:%s' % ('no-unc' if not with_unc else 'other'), 'get_sed raised on an in-memory cube: %r' % (exc,), dict(wit0, model=mi, use=use))
+                        break
+                    ctx.event('cube:get_sed-after-values-reassigned')
+                    w3 = np.asarray(s3.wav.to(u.micron).value, float)
+                    i3 = lookup(wav_asc, None, w3)
+                    g3 = np.asarray(s3.flux.to(funit).value, float)
+                    if i3 is None or g3.shape != (n_a, n_w) or not O.close(g3, vv[mi][:, i3], 1e-12) or \
+                            (with_unc and not O.close(np.asarray(s3.error.to(funit).value, float), vv[mi][:, i3] * 0.07, 1e-12)):
+                        ctx.violation('cube:get_sed-wrong-slice' if use == 0 else 'cube:get_sed-stale-after-values-reassigned',
+                                      'extracting one model does not give the SED that is in the cube' + (' after its values were re-assigned' if use else ''),
+                                      dict(wit0, model=mi, use=use))
+                        break
+                ctx.case(('cubemem', ic, ctx.shard), nontrivial=True)
 
             # ---------------- convolved fluxes ----------------
             cf = ConvolvedFluxes()
